@@ -39,9 +39,9 @@ def run(tier):
                      else "invoke %s n1" % s if r < 0.75 else "fnaddr %s n1" % s)
         lines += h
         expected += [None] * len(h)
-    drvs = vp.build_many([("sbx_vm", ["sbx_driver.cpp"], ["-DBK_VM"]), ("sig_driver", ["sig_driver.cpp"], []),
-                          ("sig_driver_lp16", ["sig_driver.cpp"], ["-DABI_LP16"]),
-                          ("sig_driver_lp64u", ["sig_driver.cpp"], ["-DABI_LP64U"])])
+    drvs = vp.build_many([("sbx_vm", ["sbx_driver.cpp"], ["-DBK_VM"]), ("sig_driver", ["sig_driver.cpp"], ["-DVM_MAX_FUNCS=64"]),
+                          ("sig_driver_lp16", ["sig_driver.cpp"], ["-DVM_MAX_FUNCS=64", "-DABI_LP16"]),
+                          ("sig_driver_lp64u", ["sig_driver.cpp"], ["-DVM_MAX_FUNCS=64", "-DABI_LP64U"])])
     events, tpath = sx.replay(drvs["sbx_vm"], wd, "vm", lines)
     for b in sx.validate(chk, "Trace_Sbx", tpath, events, lines, "lookup-vm"):
         chk.violation("[lookup, vm backend] event %d outside the C11 Contract: %s" % (b["index"], b["event"]),
